@@ -30,8 +30,8 @@ RULE = ("Hypothesis draws well-formed definition closures (vlib.defgen.programs:
         "carries them) of every message and struct are compared between the generator's expectation, the parser model, Python "
         "(ctypes), C (gcc probe: sizeof/_Alignof/offsetof/_Generic), JavaScript (node) and MATLAB (interpreter); sizeof/offsetof from "
         "gcc == ctypes == type_size == sum of MATLAB element sizes == expectation.  A stream of NEAR MISSES runs beside it: hand-written files with zero / negative / fractional array lengths and with "
-        "one name given to two kinds of definition across files (with a field that uses it), plus a rotating slice (all in the thorough "
-        "tier) of the generator's 804-case conflict table; a rejection is only counted, an accepted one gets the same cross-language "
+        "one name given to two kinds of definition across files (with a field that uses it), generated programs of the generator's 'fractional-length' class, plus a rotating slice "
+        "(all in the thorough tier) of the generator's 804-case conflict table; a rejection is only counted, an accepted one gets the same cross-language "
         "comparison with the parser model as reference.  Non-trivial = accepted program with >=2 distinct "
         "native widths and >=1 nested or array field; distinct = set of (resolved native type, scalar/array) + nesting depth + options.")
 ASSUME = [
@@ -48,7 +48,7 @@ ASSUME = [
     "a language output that does not load at all is reported here as well (key <lang>/load/...), because nothing can then be compared",
 ]
 
-ALLOW = ("prefix-names", "zero-length")  # zero-length: rejected by the compiler since the repair of F21 (the generator no longer emits it)
+ALLOW = ("prefix-names", "zero-length", "long-names")  # zero-length: rejected by the compiler since the repair of F21 (the generator no longer emits it)
 # classes that were tied to compiler defects which are repaired now: part of the normal domain, kept at a moderate weight
 FORMER = ("alias-of-imported-struct", "alias-of-imported-struct-field", "struct-contains-message", "string-special")
 PREFIXES = ("MT_", "MID_", "HID_")
@@ -566,6 +566,21 @@ def shard(seed, n, idx, quick):
         for kind, q in conflict_near_misses(seed, idx, 16, 4 if quick else None):
             for key, what in run_near_miss(E, kind, q, q.compile_kwargs(), res):
                 res.add_finding(key, what, {"key": key, "near_miss": kind, "src": {"files": dict(q.files), "root": q.root}, "opts": q.compile_kwargs()})
+            res.evaluations += 1
+
+        # generated near misses: the generator's opt-in class "fractional-length" (one extra field T[A / B] with A/B below one, zero,
+        # or truncated); the ill-formed ones are near misses, the well-formed (truncated) ones ordinary programs
+        for j in range(3 if quick else 30):
+            q = G.random_program(seed * 100 + j, allow=("fractional-length",), validate_alignment=True)
+            sub = next((c for c in q.classes if c.startswith("fractional-length/")), None)
+            if sub is None:
+                continue
+            if q.wellformed:
+                one(q, "generated-truncated-length")
+            else:
+                for key, what in run_near_miss(E, sub, q, q.compile_kwargs(), res):
+                    res.add_finding(key, what, {"key": key, "near_miss": sub, "src": {"files": dict(q.files), "root": q.root}, "opts": q.compile_kwargs()})
+                res.count("near-miss/generated-" + sub)
             res.evaluations += 1
 
         def body(v):
